@@ -4,28 +4,8 @@
    int(x) on a non-negative float is Qfloor. math.Log10 is a parameter. *)
 From Coq Require Import ZArith QArith Qround Lia.
 From PV Require Import Gen.DomainConst.
+From PV Require Export Score.ScoreBase.
 Open Scope Q_scope.
-
-Definition Qmin (a b : Q) : Q := if Qle_bool a b then a else b.
-Definition Qltb (a b : Q) : bool := negb (Qle_bool b a).
-
-(* math.Round *)
-Definition round_half_away (q : Q) : Z :=
-  if Qle_bool 0 q then Qfloor (q + (1#2)) else (- Qfloor ((- q) + (1#2)))%Z.
-
-Record summary := {
-  total_files : Z;
-  deps_enabled : bool; arch_enabled : bool;
-  deps_total_modules : Z; deps_modules_in_cycles : Z; deps_max_depth : Z;
-  deps_msd : Q; arch_compliance : Q;
-  average_complexity : Q; high_complexity_count : Z;
-  dead_code_count : Z; critical_dead : Z; warning_dead : Z; info_dead : Z;
-  code_duplication : Q;
-  cbo_classes : Z; high_coupling : Z; medium_coupling : Z;
-  lcom_classes : Z; high_lcom : Z; medium_lcom : Z
-}.
-
-Definition inject (z : Z) : Q := inject_Z z.
 
 (* Validate: true = no error *)
 Definition validate (s : summary) : bool :=
@@ -105,8 +85,6 @@ Definition penalty_to_score (penalty maxp : Z) : Z :=
 (* 1 + log10(files/10) for files > 10; log10 is an oracle *)
 Definition norm_factor (log10 : Q -> Q) (files : Z) : Q :=
   if (10 <? files)%Z then 1 + log10 (inject files / 10) else 1.
-
-Inductive grade := GA | GB | GC | GD | GF | GNA.
 
 Definition grade_of (score : Z) : grade :=
   if (domain_GradeAThreshold <=? score)%Z then GA
